@@ -663,7 +663,8 @@ func runC16Maps(c *Ctx, pols []*iterPolicy, prefix, indent string) *Violation {
 		if ref.err != nil {
 			continue
 		}
-		delete(d.Files, "sim/f")
+		// the path already holds a longer, older file: the writers must truncate it
+		d.Files["sim/f"] = append(append([]byte("<stale>"), ref.out...), " stale tail {\"k\":1}</stale>"...)
 		var err error
 		c.Eval()
 		if v := safely(c, f.name, func() { err = f.f() }); v != nil {
